@@ -16,7 +16,7 @@ import z3
 from . import sym
 from .sym import (VInt, VBool, VStr, VAtom, VConst, VTuple, VObj, VList, VDict, VFunc,
                   VOpaque, VDyn, VFloat, Unsupported, sand, sor, atom)
-from .interp import _Raise, _PathEnd, VExc, ListObj, _src, _conc
+from .interp import _Raise, _PathEnd, VExc, ListObj, _src, _conc, StarArgs
 
 REPO = os.environ.get("VERIF_REPO", "/repo")
 SRC = os.path.join(REPO, "src")
@@ -280,8 +280,9 @@ class World:
             return "".join(chars)
         if isinstance(v, VAtom):
             code = ev(v.t).as_long()
-            o = sym.ATOMS.obj(code) if 0 <= code < len(sym.ATOMS.objs) else None
-            return repr(o)
+            if 0 <= code < len(sym.ATOMS.objs):
+                return {"__atom__": sym.ATOMS._key(sym.ATOMS.obj(code))}
+            return {"__atom__": "None"}
         if isinstance(v, VTuple):
             return [self.concretize(model, x, it) for x in v.items]
         if isinstance(v, VObj):
@@ -453,7 +454,59 @@ class World:
         return comps.comprehension(it, node)
 
     def list_item(self, it, v, L, j, node):
-        return it.fresh(L.elem or "opaque", "item")
+        from . import codec
+        if L.items is not None:
+            # concrete items with a symbolic index: fork over the positions
+            for k, x in enumerate(L.items):
+                if it.st.spec:
+                    break
+                if it.decide(j == k):
+                    return x
+            if not it.st.spec:
+                raise _PathEnd()
+            raise Unsupported("symbolic index into a literal list inside a specification")
+        if L.arrays is None:
+            if L.spec is None:
+                return VOpaque("item")
+            L.arrays = codec.fresh_arrays(it, L.spec, "lst")
+        v2, _ = codec.decode(it, L.spec, [z3.Select(a, j) for a in L.arrays])
+        return it.resolve(v2)
+
+    def list_append_sym(self, it, lv, L, x):
+        from . import codec
+        if L.arrays is None and L.spec is None:
+            return
+        if L.arrays is None:
+            L.arrays = codec.fresh_arrays(it, L.spec, "lst")
+        try:
+            terms = codec.encode(it, L.spec, x)
+        except Unsupported:
+            L.arrays = None
+            L.spec = None
+            return
+        L.arrays = [z3.Store(a, L.len, t) for a, t in zip(L.arrays, terms)]
+
+    def minmax_ext(self, it, is_min, v, kw, node):
+        """min/max of a symbolic list of ints: ValueError when empty, else a bound of every item."""
+        if not isinstance(v, VList):
+            return None
+        L = it.st.lists[v.oid]
+        it.guard(L.len > 0, ValueError, node, "SAFE-Value")
+        r = it.fresh_int("max" if not is_min else "min")
+        if L.arrays is not None and L.spec in ("int", "nat"):
+            j = z3.Int(it.namer.fresh("j"))
+            a = L.arrays[0]
+            body = (r.t <= z3.Select(a, j)) if is_min else (z3.Select(a, j) <= r.t)
+            it.S.add(z3.ForAll([j], z3.Implies(z3.And(0 <= j, j < L.len), body),
+                               patterns=[z3.Select(a, j)]))
+            k = z3.Int(it.namer.fresh("arg"))
+            it.S.add(z3.And(0 <= k, k < L.len, z3.Select(a, k) == r.t))
+        return r
+
+    def to_dyn(self, it, v):
+        if isinstance(v, VDyn):
+            return v
+        raise Unsupported(f"cannot box {v!r} as a dynamic value")
 
     def callee_modifies(self, it, calls):
         """Attribute names possibly modified by the calls in a loop body."""
